@@ -306,8 +306,23 @@ DEB_GOALS = ["StopBusyPending", "StopBusyServedAndPending", "StopBusyTwoPending"
              "RequestAfterStopBusy", "RequestAfterExit"]
 
 
+def _settled(r):
+    """TLC gave an answer about the model (finished, or reported a violation / deadlock) - as opposed to dying on the way."""
+    return r.ok or bool(r.violated) or bool(re.search(r"Temporal propert(y|ies) .*violated", r.out))
+
+
+def _tlc(ctx, module, cfg, tries=3, **kw):
+    r = None
+    for attempt in range(tries):
+        r = vf.run_tlc(ctx, module, cfg, **kw)
+        if _settled(r):
+            return r
+        ctx.log("TLC run %s %s gave no answer (timeout=%s error=%s): attempt %d of %d" % (module, cfg, r.timeout, (r.error or "")[:120], attempt + 1, tries))
+    return r
+
+
 def _monitor(ctx, path, name):
-    r = vf.run_tlc(ctx, "Trace_PoolMon", "Trace_PoolMon.cfg", workers=1, heap="2g", timeout=600,
+    r = _tlc(ctx, "Trace_PoolMon", "Trace_PoolMon.cfg", workers=1, heap="2g", timeout=600,
                    env={"VF_TRACE": path}, deadlock=False, name=name, quiet=True)
     if not r.ok:
         raise vf.Inconclusive("monitor run failed on %s: %s\n%s" % (name, r.error or r.violated, r.out[-1500:]))
@@ -347,7 +362,7 @@ def run(ctx):
 
     # ---- 1. model passes (run in the background while the harness is built and driven)
     def must(module, cfg, **kw):
-        r = vf.run_tlc(ctx, module, cfg, **kw)
+        r = _tlc(ctx, module, cfg, **kw)
         return r, cfg
 
     bg = []
@@ -367,7 +382,7 @@ def run(ctx):
 
     # the deadlock TLC finds in the hand-shake of the code as it is today -> gate schedule
     cex_path = os.path.join(ctx.tmp, "cex_stop.json")
-    rd = vf.run_tlc(ctx, "Lifecycle", "Lifecycle_defect.cfg", workers=2, timeout=300,
+    rd = _tlc(ctx, "Lifecycle", "Lifecycle_defect.cfg", workers=2, timeout=300,
                     extra=["-noGenerateSpecTE", "-dumpTrace", "json", cex_path])
     if rd.violated != "deadlock" or not os.path.exists(cex_path):
         raise vf.Inconclusive("Lifecycle.tla with Defect_StopHandshake = TRUE did not produce the deadlock counterexample "
@@ -381,7 +396,7 @@ def run(ctx):
     # the deadlock of eventDebouncer.stop() holding e.mu, in the sub-graph whose steps can be forced without a hook between the
     # flusher's select and its Lock (EvEager): -> commands for the real eventDebouncer / the Session's node-event debouncer
     evcex = os.path.join(ctx.tmp, "cex_evstop.json")
-    rev = vf.run_tlc(ctx, "Lifecycle", "Lifecycle_x_evstoplock_eager.cfg", workers=1, timeout=300,
+    rev = _tlc(ctx, "Lifecycle", "Lifecycle_x_evstoplock_eager.cfg", workers=1, timeout=300,
                      extra=["-noGenerateSpecTE", "-dumpTrace", "json", evcex])
     if rev.violated != "deadlock" or not os.path.exists(evcex):
         raise vf.Inconclusive("Lifecycle.tla with Defect_EvStopUnderLock = TRUE (EvEager) did not produce the deadlock counterexample "
@@ -396,7 +411,7 @@ def run(ctx):
 
     # simulation walks of the repaired debouncer protocol
     nsim = 60 if quick else 600
-    rs = vf.run_tlc(ctx, "MC_Lifecycle", "MC_Lifecycle_deb.cfg", workers=1, timeout=600, simulate="num=%d" % nsim, depth=40,
+    rs = _tlc(ctx, "MC_Lifecycle", "MC_Lifecycle_deb.cfg", workers=1, timeout=600, simulate="num=%d" % nsim, depth=40,
                     deadlock=False, extra=["-seed", str(ctx.seed), "-noGenerateSpecTE"], name="deb_sim")
     if not rs.ok:
         raise vf.Inconclusive("debouncer simulation failed: %s\n%s" % (rs.error or rs.violated, rs.out[-1500:]))
@@ -410,7 +425,7 @@ def run(ctx):
     # (stop while refreshFn runs with listeners pending, requests after stop, ...)
     def goal(gname):
         gp = os.path.join(ctx.tmp, "goal_%s.json" % gname)
-        r = vf.run_tlc(ctx, "MC_Lifecycle", "MC_Lifecycle_goal_%s.cfg" % gname, workers=1, timeout=300, deadlock=False,
+        r = _tlc(ctx, "MC_Lifecycle", "MC_Lifecycle_goal_%s.cfg" % gname, workers=1, timeout=300, deadlock=False,
                        extra=["-noGenerateSpecTE", "-dumpTrace", "json", gp], name="goal_" + gname, quiet=True)
         return gname, r, gp
     for gname, r, gp in pool.map(goal, DEB_GOALS):
@@ -424,7 +439,7 @@ def run(ctx):
     ctx.log("debouncer behaviours: 1 counterexample + %d simulation walks + %d goal-directed behaviours" % (len(walks), len(DEB_GOALS)))
 
     # ---- 2. Pool: every edge of the eager graph -> schedules
-    re_ = vf.run_tlc(ctx, "MC_Pool", "MC_Pool_edges.cfg", workers=1, timeout=600, deadlock=False, name="pool_edges",
+    re_ = _tlc(ctx, "MC_Pool", "MC_Pool_edges.cfg", workers=1, timeout=600, deadlock=False, name="pool_edges",
                      extra=["-noGenerateSpecTE"])
     if not re_.ok:
         raise vf.Inconclusive("pool edge dump failed: %s\n%s" % (re_.error or re_.violated, re_.out[-2000:]))
@@ -437,7 +452,7 @@ def run(ctx):
     # sizes 1 and 3 as well (size 1: the only connection dies -> refilled; size 3: one trigger, connectMany of 2)
     extra_graphs = []
     for size, cfg in ((1, "MC_Pool_edges1.cfg"), (3, "MC_Pool_edges3.cfg" if quick else "MC_Pool_edges3full.cfg")):
-        rx = vf.run_tlc(ctx, "MC_Pool", cfg, workers=1, timeout=600, deadlock=False, name="pool_edges%d" % size,
+        rx = _tlc(ctx, "MC_Pool", cfg, workers=1, timeout=600, deadlock=False, name="pool_edges%d" % size,
                         extra=["-noGenerateSpecTE"])
         if not rx.ok:
             raise vf.Inconclusive("pool edge dump (size %d) failed: %s" % (size, rx.error or rx.violated))
@@ -454,7 +469,7 @@ def run(ctx):
         len(g.nodes), g.nedges, nmacro, len(scheds), sum(len(s["steps"]) for s in scheds)))
     nwalk = 0
     if not quick:
-        rw = vf.run_tlc(ctx, "MC_Pool", "MC_Pool_sim.cfg", workers=1, timeout=900, simulate="num=400", depth=60, deadlock=False,
+        rw = _tlc(ctx, "MC_Pool", "MC_Pool_sim.cfg", workers=1, timeout=900, simulate="num=400", depth=60, deadlock=False,
                         extra=["-seed", str(ctx.seed), "-noGenerateSpecTE"], name="pool_sim")
         if not rw.ok:
             raise vf.Inconclusive("pool simulation failed: %s" % (rw.error or rw.violated))
